@@ -27,7 +27,8 @@ pub assume_specification<const N: usize> [ BUint::<N>::is_zero ] (a: &BUint<N>) 
 pub assume_specification<const N: usize> [ BUint::<N>::is_one ] (a: &BUint<N>) -> (r: bool)
     ensures r == (uv(*a) == 1);
 pub assume_specification<const N: usize> [ BUint::<N>::bit ] (a: &BUint<N>, i: u32) -> (r: bool)
-    ensures i == 0 ==> r == (uv(*a) % 2 == 1);
+    ensures i == 0 ==> r == (uv(*a) % 2 == 1),
+        r == ((uv(*a) / vstd::arithmetic::power2::pow2(i as nat)) % 2 == 1);
 pub assume_specification<const N: usize> [ <BUint<N> as core::cmp::PartialEq>::eq ] (a: &BUint<N>, b: &BUint<N>) -> (r: bool)
     ensures r == (uv(*a) == uv(*b));
 
